@@ -886,6 +886,10 @@ class ListAttributeBase(AttributeBase):
 
         if not isinstance(self._value, list):
             self._value = []
+        if value is self._value:
+            # The caller appended to the stored list itself and hands it back: it is up to
+            # date already (extending it with itself would double it on every call)
+            return
         if isinstance(value, list):
             self._value.extend(value)
         else:
